@@ -143,11 +143,24 @@ pub mod rust_log_ref_finder
                     let mut log_message_span: Option<pest::Span> = None;
                     let rule_ref_container_span = rule_l2.as_span();
                     let mut kvp_spans: Vec<(pest::Span, Option<pest::Span>)> = Vec::new();
+                    let mut target_arg_present = false;
+                    let mut first_arg_after_target_span: Option<pest::Span> = None;
 
                     for rule in rule_l2.into_inner()
                     {
+                        if target_arg_present
+                            && first_arg_after_target_span.is_none()
+                            && rule.as_rule() != Rule::target_arg
+                        {
+                            first_arg_after_target_span = Some(rule.as_span());
+                        }
+
                         match rule.as_rule()
                         {
+                            Rule::target_arg =>
+                            {
+                                target_arg_present = true;
+                            },
                             Rule::string_literal =>
                             {
                                 log_message_span = match rule.into_inner().next()
@@ -264,11 +277,22 @@ pub mod rust_log_ref_finder
                                 insertion_suffix = Some("; ".to_string());
                             }
 
-                            code_pos = Some(CodePosition::new(
-                                rule_ref_container_span.start() + 1,
-                                rule_ref_container_span.start_pos().line_col().0,
-                                rule_ref_container_span.start_pos().line_col().1 + 1,
-                            ));
+                            /*
+                             * Key-value pairs follow the target argument, if there is one.
+                             */
+                            code_pos = match first_arg_after_target_span
+                            {
+                                Some(span) => Some(CodePosition::new(
+                                    span.start(),
+                                    span.start_pos().line_col().0,
+                                    span.start_pos().line_col().1,
+                                )),
+                                None => Some(CodePosition::new(
+                                    rule_ref_container_span.start() + 1,
+                                    rule_ref_container_span.start_pos().line_col().0,
+                                    rule_ref_container_span.start_pos().line_col().1 + 1,
+                                )),
+                            };
                         }
                     }
                     else
